@@ -56,6 +56,124 @@ use mkjson::MP;
 
 type S = MKTreeStoreInMemory;
 
+// ------------------------------------------------------------------------------------------ the HTTP front
+/// The REAL router of the aggregator (`DependenciesBuilder::create_http_routes`: proof_routes.rs handlers, hash
+/// validator, sanitising, message adapters) over the provers of the current history and a signed-entity service that
+/// answers the beacon of the "last certificate".
+mod front {
+    use super::*;
+    use mithril_aggregator::dependency_injection::DependenciesBuilder;
+    use mithril_aggregator::services::SignedEntityService;
+    use mithril_aggregator::ServeCommandConfiguration;
+    use mithril_common::entities::{
+        CardanoBlocksTransactionsSnapshot, CardanoDatabaseSnapshot, CardanoStakeDistribution, Certificate, Epoch, MithrilStakeDistribution,
+    };
+    use tokio::task::JoinHandle;
+    use warp::Filter;
+
+    #[derive(Default)]
+    pub struct Switch2(pub Mutex<Option<Arc<MithrilProverService<S>>>>);
+    #[async_trait]
+    impl ProverService for Switch2 {
+        async fn compute_blocks_proofs(&self, up_to: BlockNumber, hashes: &[String]) -> StdResult<Option<mithril_common::entities::MkSetProof<CardanoBlock>>> {
+            let p = self.0.lock().unwrap().clone().unwrap();
+            p.compute_blocks_proofs(up_to, hashes).await
+        }
+        async fn compute_transactions_proofs(&self, up_to: BlockNumber, hashes: &[String]) -> StdResult<Option<mithril_common::entities::MkSetProof<CardanoTransaction>>> {
+            let p = self.0.lock().unwrap().clone().unwrap();
+            p.compute_transactions_proofs(up_to, hashes).await
+        }
+        async fn compute_cache(&self, up_to: BlockNumber) -> StdResult<()> {
+            let p = self.0.lock().unwrap().clone().unwrap();
+            p.compute_cache(up_to).await
+        }
+    }
+    #[derive(Default)]
+    pub struct SwitchL(pub Mutex<Option<Arc<LegacyMithrilProverService<S>>>>);
+    #[async_trait]
+    impl LegacyProverService for SwitchL {
+        async fn compute_transactions_proofs(&self, up_to: BlockNumber, hashes: &[String]) -> StdResult<Vec<mithril_common::entities::CardanoTransactionsSetProof>> {
+            let p = self.0.lock().unwrap().clone().unwrap();
+            p.compute_transactions_proofs(up_to, hashes).await
+        }
+        async fn compute_cache(&self, up_to: BlockNumber) -> StdResult<()> {
+            let p = self.0.lock().unwrap().clone().unwrap();
+            p.compute_cache(up_to).await
+        }
+    }
+    /// the beacon (and tip) of the last certified snapshots
+    #[derive(Default)]
+    pub struct Entities {
+        pub v2: Mutex<Option<(u64, u64)>>,
+        pub legacy: Mutex<Option<u64>>,
+    }
+    #[async_trait]
+    impl SignedEntityService for Entities {
+        async fn create_artifact(&self, _t: SignedEntityType, _c: &Certificate) -> StdResult<JoinHandle<StdResult<()>>> {
+            Err(anyhow::anyhow!("not driven"))
+        }
+        async fn get_last_signed_cardano_database_snapshots(&self, _n: usize) -> StdResult<Vec<SignedEntity<CardanoDatabaseSnapshot>>> { Ok(vec![]) }
+        async fn get_signed_cardano_database_snapshot_by_id(&self, _i: &str) -> StdResult<Option<SignedEntity<CardanoDatabaseSnapshot>>> { Ok(None) }
+        async fn get_last_signed_mithril_stake_distributions(&self, _n: usize) -> StdResult<Vec<SignedEntity<MithrilStakeDistribution>>> { Ok(vec![]) }
+        async fn get_signed_mithril_stake_distribution_by_id(&self, _i: &str) -> StdResult<Option<SignedEntity<MithrilStakeDistribution>>> { Ok(None) }
+        async fn get_last_cardano_transaction_snapshot(&self) -> StdResult<Option<SignedEntity<CardanoTransactionsSnapshot>>> {
+            Ok(self.legacy.lock().unwrap().map(|u| SignedEntity {
+                signed_entity_id: "se-legacy".into(),
+                signed_entity_type: SignedEntityType::CardanoTransactions(Epoch(1), BlockNumber(u)),
+                certificate_id: "cert-legacy".into(),
+                artifact: CardanoTransactionsSnapshot::new("root".into(), BlockNumber(u)),
+                created_at: Default::default(),
+            }))
+        }
+        async fn get_last_cardano_blocks_transactions_snapshot(&self) -> StdResult<Option<SignedEntity<CardanoBlocksTransactionsSnapshot>>> {
+            Ok(self.v2.lock().unwrap().map(|(u, off)| SignedEntity {
+                signed_entity_id: "se-v2".into(),
+                signed_entity_type: SignedEntityType::CardanoBlocksTransactions(Epoch(1), BlockNumber(u), BlockNumberOffset(off)),
+                certificate_id: "cert-v2".into(),
+                artifact: CardanoBlocksTransactionsSnapshot::new("root".into(), BlockNumber(u), BlockNumberOffset(off)),
+                created_at: Default::default(),
+            }))
+        }
+        async fn get_last_signed_cardano_stake_distributions(&self, _n: usize) -> StdResult<Vec<SignedEntity<CardanoStakeDistribution>>> { Ok(vec![]) }
+    }
+
+    pub struct Front {
+        routes: warp::filters::BoxedFilter<(warp::reply::Response,)>,
+        pub prover2: Arc<Switch2>,
+        pub proverl: Arc<SwitchL>,
+        pub entities: Arc<Entities>,
+    }
+    impl Front {
+        pub fn new(rt: &tokio::runtime::Runtime, scratch: &Path) -> Front {
+            let prover2 = Arc::new(Switch2::default());
+            let proverl = Arc::new(SwitchL::default());
+            let entities = Arc::new(Entities::default());
+            let dir = scratch.join("aggregator");
+            std::fs::create_dir_all(&dir).unwrap();
+            let configuration = ServeCommandConfiguration {
+                data_stores_directory: dir.join("stores"),
+                db_directory: dir.join("db"),
+                snapshot_directory: dir.join("snapshots"),
+                ..ServeCommandConfiguration::new_sample(dir.join("sample"))
+            };
+            let mut builder = DependenciesBuilder::new(logger(), Arc::new(configuration));
+            builder.signed_entity_service = Some(entities.clone());
+            builder.prover_service = Some(prover2.clone());
+            builder.legacy_prover_service = Some(proverl.clone());
+            let routes = rt.block_on(async { builder.create_http_routes().await }).expect("the aggregator's HTTP routes");
+            let routes = routes.map(|r| warp::reply::Reply::into_response(r)).boxed();
+            Front { routes, prover2, proverl, entities }
+        }
+        /// GET on the real router: (status, body)
+        pub fn get(&self, rt: &tokio::runtime::Runtime, path: &str) -> (u16, String) {
+            let routes = self.routes.clone();
+            let path = format!("/aggregator{}", path);
+            let r = rt.block_on(async move { warp::test::request().method("GET").path(&path).reply(&routes).await });
+            (r.status().as_u16(), String::from_utf8_lossy(r.body()).to_string())
+        }
+    }
+}
+
 fn logger() -> slog::Logger {
     slog::Logger::root(slog::Discard, slog::o!())
 }
@@ -186,13 +304,52 @@ impl Node {
     }
 }
 
-fn err_class(e: &anyhow::Error) -> &'static str {
-    let t = format!("{:?}", e);
+fn err_class(t: &str) -> &'static str {
     if std::env::var("C11B_DEBUG").is_ok() { eprintln!("ERR: {}", t.chars().take(700).collect::<String>()); }
     if t.contains("timed out") { "timeout" }
     else if t.contains("non-existing key") { "nokey" }
     else if t.contains("same root") { "root" }
     else { "other" }
+}
+
+/// a v2 answer as the client holds it: items (hash, block hash, block number, slot), the proof (leaves of the
+/// items, the proof for Lean, its root), the not-certified list, and the verdict of the REAL client-side verifier
+struct V2Msg {
+    items: Vec<(String, String, u64, u64)>,
+    proof: Option<(Vec<Vec<u8>>, MP, String)>,
+    nc: Vec<String>,
+    latest: u64,
+    offset: u64,
+    verified: Result<(String, Vec<(String, String, u64, u64)>), String>,
+}
+impl V2Msg {
+    fn of_tx(m: &CardanoTransactionsProofsV2Message) -> V2Msg {
+        let items: Vec<(String, String, u64, u64)> = m.certified_transactions.as_ref().map(|p| p.items.iter().map(|t| (t.transaction_hash.clone(), t.block_hash.clone(), *t.block_number, *t.slot_number)).collect()).unwrap_or_default();
+        let proof = m.certified_transactions.as_ref().map(|p| {
+            let pr = ProtocolMkProof::from_bytes_hex(&p.proof).unwrap();
+            let leaves = p.items.iter().map(|t| CardanoTransaction::from(t.clone()).into_mk_tree_node().to_vec()).collect();
+            (leaves, MP::from_value(&serde_json::to_value(&*pr).unwrap()), pr.compute_root().to_hex())
+        });
+        let verified = m.verify().map(|v| (v.certified_merkle_root().to_string(), v.certified_transactions().iter().map(|t| (t.transaction_hash.clone(), t.block_hash.clone(), *t.block_number, *t.slot_number)).collect())).map_err(|e| format!("{:?}", e));
+        V2Msg { items, proof, nc: m.non_certified_transactions.clone(), latest: *m.latest_block_number, offset: *m.security_parameter, verified }
+    }
+    fn of_blk(m: &CardanoBlocksProofsMessage) -> V2Msg {
+        let items: Vec<(String, String, u64, u64)> = m.certified_blocks.as_ref().map(|p| p.items.iter().map(|t| (t.block_hash.clone(), t.block_hash.clone(), *t.block_number, *t.slot_number)).collect()).unwrap_or_default();
+        let proof = m.certified_blocks.as_ref().map(|p| {
+            let pr = ProtocolMkProof::from_bytes_hex(&p.proof).unwrap();
+            let leaves = p.items.iter().map(|t| CardanoBlock::from(t.clone()).into_mk_tree_node().to_vec()).collect();
+            (leaves, MP::from_value(&serde_json::to_value(&*pr).unwrap()), pr.compute_root().to_hex())
+        });
+        let verified = m.verify().map(|v| (v.certified_merkle_root().to_string(), v.certified_blocks().iter().map(|t| (t.block_hash.clone(), t.block_hash.clone(), *t.block_number, *t.slot_number)).collect())).map_err(|e| format!("{:?}", e));
+        V2Msg { items, proof, nc: m.non_certified_blocks.clone(), latest: *m.latest_block_number, offset: *m.security_parameter, verified }
+    }
+}
+
+/// the hashes as a client may send them: any order, repetitions (the route sorts and de-duplicates)
+fn wire(hashes: &[String]) -> String {
+    let mut w: Vec<String> = hashes.iter().rev().cloned().collect();
+    if let Some(f) = hashes.first() { w.push(f.clone()); }
+    w.join(",")
 }
 
 // ------------------------------------------------------------------------------------------ histories
@@ -455,9 +612,15 @@ fn flow_ok(signed: &BTreeMap<u64, (String, usize)>, cache: Option<(u64, usize)>,
 }
 
 #[allow(clippy::too_many_arguments)]
-fn run_history(rt: &Arc<tokio::runtime::Runtime>, template: &Path, scratch: &Path, hidx: usize, ops: &[Op], batch: usize, pool2: usize, pooll: usize, sink: &mut Sink, tag: &str, only: Option<usize>) {
+fn run_history(rt: &Arc<tokio::runtime::Runtime>, template: &Path, scratch: &Path, hidx: usize, ops: &[Op], batch: usize, pool2: usize, pooll: usize, sink: &mut Sink, tag: &str, only: Option<usize>, front: Option<&front::Front>) {
     let chain = Arc::new(Mutex::new(vec![]));
     let node = Node::new(rt.clone(), template, scratch.join(format!("h{}.sqlite3", hidx)), chain.clone(), batch, pool2, pooll);
+    if let Some(f) = front {
+        *f.prover2.0.lock().unwrap() = Some(node.prover2.clone());
+        *f.proverl.0.lock().unwrap() = Some(node.proverl.clone());
+        *f.entities.v2.lock().unwrap() = None;
+        *f.entities.legacy.lock().unwrap() = None;
+    }
     let mut outs: Vec<String> = vec![];
     let mut r2 = RootIds::default();
     let mut rl = RootIds::default();
@@ -521,68 +684,55 @@ fn run_history(rt: &Arc<tokio::runtime::Runtime>, template: &Path, scratch: &Pat
             Op::Ptx(u, req) | Op::Pblk(u, req) => {
                 let is_tx = matches!(op, Op::Ptx(_, _));
                 let hashes: Vec<String> = req.iter().map(|x| h64(*x)).collect();
-                let offset = BlockNumberOffset(7);
-                // ---- the real service, then the conversion and partition of the HTTP handler ------------------------
-                let p = node.prover2.clone();
-                let (u_, hs) = (*u, hashes.clone());
-                // (certified items as canonical tuples, message-level verification result, proof for Lean)
-                let mut certified: Vec<(u64, u64, u64, u64)> = vec![]; // (key id, block id, number, slot); block id = key for blocks
-                let mut certified_hashes: Vec<String> = vec![];
-                let outcome: String;
-                let mut produced: Option<(String, Vec<Vec<u8>>, MP, Result<(String, Vec<(String, String, u64, u64)>), String>)> = None;
-                if is_tx {
-                    let r = rt.block_on(async move { p.compute_transactions_proofs(BlockNumber(u_), &hs).await });
-                    match r {
-                        Err(e) => outcome = format!("err:{}", err_class(&e)),
-                        Ok(None) => outcome = "none".into(),
-                        Ok(Some(sp)) => {
-                            certified_hashes = sp.transactions_hashes().cloned().collect();
-                            let items: Vec<CardanoTransaction> = sp.transactions().to_vec();
-                            let leaves: Vec<Vec<u8>> = items.iter().map(|t| t.clone().into_mk_tree_node().to_vec()).collect();
-                            let root = sp.merkle_root();
-                            let part: MkSetProofMessagePart<CardanoTransactionMessagePart> = sp.try_into().unwrap();
-                            let mp = MP::from_value(&serde_json::to_value(&*ProtocolMkProof::from_bytes_hex(&part.proof).unwrap()).unwrap());
-                            let nc: Vec<String> = hashes.iter().filter(|h| !certified_hashes.contains(h)).cloned().collect();
-                            let msg = CardanoTransactionsProofsV2Message::new("cert", Some(part), nc, BlockNumber(*u), offset);
-                            let ver = msg.verify().map(|v| (v.certified_merkle_root().to_string(), v.certified_transactions().iter().map(|t| (t.transaction_hash.clone(), t.block_hash.clone(), *t.block_number, *t.slot_number)).collect())).map_err(|e| format!("{:?}", e));
-                            for t in &items {
-                                certified.push((id_of(&t.transaction_hash).unwrap_or(0), id_of(&t.block_hash).unwrap_or(0), *t.block_number, *t.slot_number));
+                let offset = 7u64;
+                let what_req = format!("op {} {}{}", oi, op_line(op), if front.is_some() { " over HTTP" } else { "" });
+                // ---- the answer as a client receives it ---------------------------------------------------------------
+                let got: Result<V2Msg, String> = match front {
+                    // the real service, then the conversion and partition of the HTTP handler (replicated)
+                    None => {
+                        let p = node.prover2.clone();
+                        let (u_, hs) = (*u, hashes.clone());
+                        if is_tx {
+                            match rt.block_on(async move { p.compute_transactions_proofs(BlockNumber(u_), &hs).await }) {
+                                Err(e) => Err(err_class(&format!("{:?}", e)).to_string()),
+                                Ok(r) => {
+                                    let certified: Vec<String> = r.as_ref().map(|sp| sp.transactions_hashes().cloned().collect()).unwrap_or_default();
+                                    let nc: Vec<String> = hashes.iter().filter(|h| !certified.contains(h)).cloned().collect();
+                                    let part: Option<MkSetProofMessagePart<CardanoTransactionMessagePart>> = r.map(|sp| sp.try_into().unwrap());
+                                    Ok(V2Msg::of_tx(&CardanoTransactionsProofsV2Message::new("cert", part, nc, BlockNumber(*u), BlockNumberOffset(offset))))
+                                }
                             }
-                            outcome = "ok".into();
-                            produced = Some((root, leaves, mp, ver));
+                        } else {
+                            match rt.block_on(async move { p.compute_blocks_proofs(BlockNumber(u_), &hs).await }) {
+                                Err(e) => Err(err_class(&format!("{:?}", e)).to_string()),
+                                Ok(r) => {
+                                    let certified: Vec<String> = r.as_ref().map(|sp| sp.blocks_hashes().cloned().collect()).unwrap_or_default();
+                                    let nc: Vec<String> = hashes.iter().filter(|h| !certified.contains(h)).cloned().collect();
+                                    let part: Option<MkSetProofMessagePart<CardanoBlockMessagePart>> = r.map(|sp| sp.try_into().unwrap());
+                                    Ok(V2Msg::of_blk(&CardanoBlocksProofsMessage::new("cert", part, nc, BlockNumber(*u), BlockNumberOffset(offset))))
+                                }
+                            }
                         }
                     }
-                } else {
-                    let r = rt.block_on(async move { p.compute_blocks_proofs(BlockNumber(u_), &hs).await });
-                    match r {
-                        Err(e) => outcome = format!("err:{}", err_class(&e)),
-                        Ok(None) => outcome = "none".into(),
-                        Ok(Some(sp)) => {
-                            certified_hashes = sp.blocks_hashes().cloned().collect();
-                            let items: Vec<CardanoBlock> = sp.blocks().to_vec();
-                            let leaves: Vec<Vec<u8>> = items.iter().map(|t| t.clone().into_mk_tree_node().to_vec()).collect();
-                            let root = sp.merkle_root();
-                            let part: MkSetProofMessagePart<CardanoBlockMessagePart> = sp.try_into().unwrap();
-                            let mp = MP::from_value(&serde_json::to_value(&*ProtocolMkProof::from_bytes_hex(&part.proof).unwrap()).unwrap());
-                            let nc: Vec<String> = hashes.iter().filter(|h| !certified_hashes.contains(h)).cloned().collect();
-                            let msg = CardanoBlocksProofsMessage::new("cert", Some(part), nc, BlockNumber(*u), offset);
-                            let ver = msg.verify().map(|v| (v.certified_merkle_root().to_string(), v.certified_blocks().iter().map(|t| (t.block_hash.clone(), t.block_hash.clone(), *t.block_number, *t.slot_number)).collect())).map_err(|e| format!("{:?}", e));
-                            for t in &items {
-                                certified.push((id_of(&t.block_hash).unwrap_or(0), id_of(&t.block_hash).unwrap_or(0), *t.block_number, *t.slot_number));
-                            }
-                            outcome = "ok".into();
-                            produced = Some((root, leaves, mp, ver));
-                        }
+                    // the real route: validator, sanitising, service, conversion, partition, JSON
+                    Some(f) => {
+                        *f.entities.v2.lock().unwrap() = Some((*u, offset));
+                        let (status, body) = f.get(rt, &format!("/proof/v2/{}?{}={}", if is_tx { "cardano-transaction" } else { "cardano-block" }, if is_tx { "transaction_hashes" } else { "block_hashes" }, wire(&hashes)));
+                        if status == 200 {
+                            if is_tx { serde_json::from_str::<CardanoTransactionsProofsV2Message>(&body).map(|m| V2Msg::of_tx(&m)).map_err(|e| format!("json:{}", e)) }
+                            else { serde_json::from_str::<CardanoBlocksProofsMessage>(&body).map(|m| V2Msg::of_blk(&m)).map_err(|e| format!("json:{}", e)) }
+                        } else if status == 500 { Err(err_class(&body).to_string()) } else { Err(format!("http{}", status)) }
                     }
-                }
-                let non_certified: Vec<u64> = req.iter().filter(|x| !certified_hashes.contains(&h64(**x))).cloned().collect();
+                };
+                let non_certified: Vec<u64> = match &got { Ok(m) => m.nc.iter().map(|h| id_of(h).unwrap_or(0)).collect(), Err(_) => req.clone() };
                 // ---- canonical output for K ------------------------------------------------------------------------
-                let mut canon = certified.clone();
+                let mut canon: Vec<(u64, u64, u64, u64)> = match &got { Ok(m) => m.items.iter().map(|(h, bh, n, s)| (id_of(h).unwrap_or(0), id_of(bh).unwrap_or(0), *n, *s)).collect(), Err(_) => vec![] };
                 canon.sort_by_key(|c| (c.2, c.0));
                 let items_txt = canon.iter().map(|c| if is_tx { format!("({},{},{},{})", c.0, c.1, c.2, c.3) } else { format!("({},{},{})", c.0, c.2, c.3) }).collect::<Vec<_>>().join(",");
-                match &produced {
-                    Some((root, _, _, _)) => outs.push(format!("ok[{}]nc{}R{}", items_txt, hutil::list(&non_certified), r2.id(root))),
-                    None => outs.push(format!("{}nc{}", outcome, hutil::list(&non_certified))),
+                let outcome = match &got { Err(c) => format!("err:{}", c), Ok(m) if m.proof.is_none() => "none".to_string(), Ok(_) => "ok".to_string() };
+                match &got {
+                    Ok(V2Msg { proof: Some((_, _, root)), .. }) => outs.push(format!("ok[{}]nc{}R{}", items_txt, hutil::list(&non_certified), r2.id(root))),
+                    _ => outs.push(format!("{}nc{}", outcome, hutil::list(&non_certified))),
                 }
                 // ---- the oracle -------------------------------------------------------------------------------------
                 let mut expected: Vec<(u64, u64, u64, u64)> = vec![];
@@ -595,12 +745,16 @@ fn run_history(rt: &Arc<tokio::runtime::Runtime>, template: &Path, scratch: &Pat
                 }
                 expected.sort_by_key(|c| (c.2, c.0));
                 let flow = flow_ok(&ctx.signed2, ctx.cache2, &ctx.imports, *u);
-                let what_req = format!("op {} {}", oi, op_line(op));
-                if let Some((root, leaves, mp, ver)) = &produced {
+                if let Ok(m) = &got {
+                    if m.latest != *u || m.offset != offset {
+                        fails.push((oi, Failure { class: "response-beacon", what: format!("{}: the response announces block number {} / offset {}, the last certificate signed {} / {}", what_req, m.latest, m.offset, u, offset) }));
+                    }
+                }
+                if let Ok(V2Msg { proof: Some((leaves, mp, root)), verified, .. }) = &got {
                     // (K b) the proof through the Lean verifier
-                    let out = match ver { Ok((r, _)) => format!("ok {}", r), Err(e) => if e.starts_with("InvalidSetProof") { "err invalid".into() } else { "err other".to_string() } };
+                    let out = match verified { Ok((r, _)) => format!("ok {}", r), Err(e) => if e.starts_with("InvalidSetProof") { "err invalid".into() } else { "err other".to_string() } };
                     proof_cases.push((if is_tx { "proof-v2-tx".into() } else { "proof-v2-block".into() }, format!("c11.v2 part=([{}],{})", leaves.iter().map(|l| hex(l)).collect::<Vec<_>>().join(","), mp.line()), out));
-                    match ver {
+                    match verified {
                         Err(e) => fails.push((oi, Failure { class: "proof-rejected", what: format!("{}: the produced proof is rejected by the client-side verifier: {}", what_req, e.chars().take(160).collect::<String>()) })),
                         Ok((vroot, vitems)) => {
                             if vroot != root { fails.push((oi, Failure { class: "proof-rejected", what: format!("{}: verifier root {} is not the proof's {}", what_req, vroot, root) })); }
@@ -618,70 +772,89 @@ fn run_history(rt: &Arc<tokio::runtime::Runtime>, template: &Path, scratch: &Pat
                     // the certified root is the one signed for the beacon of the cache
                     if let Some((c, _)) = ctx.cache2 {
                         match flow_ok(&ctx.signed2, ctx.cache2, &ctx.imports, c) {
-                            Some((further, sroot)) if &sroot != root => {
-                                let class = if further { "C11-beacon-inside-stored-range" } else { "root-not-signed" };
+                            Some((inside, sroot)) if &sroot != root => {
+                                let class = if inside { "C11-beacon-inside-stored-range" } else { "root-not-signed" };
                                 fails.push((oi, Failure { class, what: format!("{}: the proof's Merkle root {} is not the root {} the signable builder signed for beacon {} (the beacon the cache was computed for)", what_req, root, sroot, c) }));
                             }
                             _ => {}
                         }
                     }
                 }
-                if outcome == "ok" || outcome == "none" {
+                if got.is_ok() {
                     if canon != expected {
                         let missing: Vec<_> = expected.iter().filter(|e| !canon.contains(e)).collect();
                         let extra: Vec<_> = canon.iter().filter(|e| !expected.contains(e)).collect();
                         let class = if !extra.is_empty() { if extra.iter().any(|e| e.2 > *u) { "certified-above-beacon" } else { "certified-not-stored" } } else { "certified-omitted" };
                         fails.push((oi, Failure { class, what: format!("{}: certified set differs from (requested ∩ stored at or below {}): missing {:?}, extra {:?}", what_req, u, missing, extra) }));
                     }
-                    for x in &non_certified {
-                        if expected.iter().any(|e| e.0 == *x) {
-                            fails.push((oi, Failure { class: "certified-omitted", what: format!("{}: {} is stored at or below the beacon but reported as not certified", what_req, x) }));
-                            break;
-                        }
+                    // reported as not certified: exactly the requested ones that are not certified (each once over HTTP)
+                    let mut nc_expected: Vec<u64> = req.iter().filter(|x| !expected.iter().any(|e| e.0 == **x)).cloned().collect();
+                    let mut nc_got = non_certified.clone();
+                    if front.is_some() { nc_expected.sort(); nc_expected.dedup(); nc_got.sort(); }
+                    if nc_got != nc_expected {
+                        let class = if non_certified.iter().any(|x| expected.iter().any(|e| e.0 == *x)) { "certified-omitted" } else { "non-certified-wrong" };
+                        fails.push((oi, Failure { class, what: format!("{}: reported as not certified {:?}, expected {:?}", what_req, non_certified, nc_expected) }));
                     }
                 }
-                if let Some((further, _)) = flow {
-                    if outcome.starts_with("err") {
-                        let class = if further { "C11-beacon-inside-stored-range" } else { "request-refused" };
-                        fails.push((oi, Failure { class, what: format!("{}: the prover fails ({}) although the beacon was signed and its cache computed", what_req, outcome) }));
+                if let Some((inside, _)) = flow {
+                    if let Err(c) = &got {
+                        let class = if inside { "C11-beacon-inside-stored-range" } else { "request-refused" };
+                        fails.push((oi, Failure { class, what: format!("{}: the prover fails ({}) although the beacon was signed and its cache computed", what_req, c) }));
                     }
                 }
             }
             Op::Pl(u, req) => {
                 let hashes: Vec<String> = req.iter().map(|x| h64(*x)).collect();
-                let p = node.proverl.clone();
-                let (u_, hs) = (*u, hashes.clone());
-                let r = rt.block_on(async move { p.compute_transactions_proofs(BlockNumber(u_), &hs).await });
                 let aligned = (*u + 1) % 15 == 0;
-                let what_req = format!("op {} {}", oi, op_line(op));
+                let what_req = format!("op {} {}{}", oi, op_line(op), if front.is_some() { " over HTTP" } else { "" });
                 let flow = flow_ok(&ctx.signedl, ctx.cachel, &ctx.imports, *u);
-                match r {
-                    Err(e) => {
-                        let nc = req.clone();
-                        outs.push(format!("err:{}nc{}", err_class(&e), hutil::list(&nc)));
-                        if flow.is_some() && aligned {
-                            fails.push((oi, Failure { class: "request-refused", what: format!("{}: the legacy prover fails ({}) although the beacon was signed and its cache computed", what_req, err_class(&e)) }));
+                let got: Result<CardanoTransactionsProofsMessage, String> = match front {
+                    None => {
+                        let p = node.proverl.clone();
+                        let (u_, hs) = (*u, hashes.clone());
+                        match rt.block_on(async move { p.compute_transactions_proofs(BlockNumber(u_), &hs).await }) {
+                            Err(e) => Err(err_class(&format!("{:?}", e)).to_string()),
+                            Ok(proofs) => {
+                                // the REAL adapter of the HTTP layer: message parts and the not-certified list
+                                let se = SignedEntity { signed_entity_id: "se".into(), signed_entity_type: SignedEntityType::CardanoTransactions(mithril_common::entities::Epoch(1), BlockNumber(*u)), certificate_id: "cert".into(), artifact: CardanoTransactionsSnapshot::new("root".into(), BlockNumber(*u)), created_at: Default::default() };
+                                Ok(legacy_adapter::ToCardanoTransactionsProofsMessageAdapter::try_adapt(se, proofs, hashes.clone()).unwrap())
+                            }
                         }
                     }
-                    Ok(proofs) => {
-                        let certified: Vec<String> = proofs.iter().flat_map(|p| p.transactions_hashes().to_vec()).collect();
-                        let roots: Vec<String> = proofs.iter().map(|p| p.merkle_root()).collect();
-                        // the REAL adapter of the HTTP layer: message parts and the not-certified list
-                        let se = SignedEntity { signed_entity_id: "se".into(), signed_entity_type: SignedEntityType::CardanoTransactions(mithril_common::entities::Epoch(1), BlockNumber(*u)), certificate_id: "cert".into(), artifact: CardanoTransactionsSnapshot::new(roots.first().cloned().unwrap_or_default(), BlockNumber(*u)), created_at: Default::default() };
-                        let msg: CardanoTransactionsProofsMessage = legacy_adapter::ToCardanoTransactionsProofsMessageAdapter::try_adapt(se, proofs, hashes.clone()).unwrap();
+                    Some(f) => {
+                        *f.entities.legacy.lock().unwrap() = Some(*u);
+                        let (status, body) = f.get(rt, &format!("/proof/cardano-transaction?transaction_hashes={}", wire(&hashes)));
+                        if status == 200 { serde_json::from_str::<CardanoTransactionsProofsMessage>(&body).map_err(|e| format!("json:{}", e)) } else if status == 500 { Err(err_class(&body).to_string()) } else { Err(format!("http{}", status)) }
+                    }
+                };
+                match got {
+                    Err(c) => {
+                        outs.push(format!("err:{}nc{}", c, hutil::list(req)));
+                        if flow.is_some() && aligned {
+                            fails.push((oi, Failure { class: "request-refused", what: format!("{}: the legacy prover fails ({}) although the beacon was signed and its cache computed", what_req, c) }));
+                        }
+                    }
+                    Ok(msg) => {
+                        let certified: Vec<String> = msg.certified_transactions.iter().flat_map(|p| p.transactions_hashes.clone()).collect();
                         let nc: Vec<u64> = msg.non_certified_transactions.iter().map(|h| id_of(h).unwrap_or(0)).collect();
                         let cert_ids: Vec<u64> = certified.iter().map(|h| id_of(h).unwrap_or(0)).collect();
                         let expected: Vec<u64> = req.iter().filter(|x| stored.iter().any(|b| b.number <= *u && b.txs.contains(x))).cloned().collect();
+                        if *msg.latest_block_number != *u {
+                            fails.push((oi, Failure { class: "response-beacon", what: format!("{}: the response announces block number {}, the last certificate signed {}", what_req, msg.latest_block_number, u) }));
+                        }
                         if msg.certified_transactions.is_empty() {
                             outs.push(format!("ok[]nc{}", hutil::list(&nc)));
                         } else {
-                            outs.push(format!("ok{}nc{}L{}", hutil::list(&cert_ids), hutil::list(&nc), rl.id(&roots[0])));
-                            let ver = msg.verify();
                             let mut parts_txt = vec![];
+                            let mut roots: Vec<String> = vec![];
                             for part in &msg.certified_transactions {
-                                let mp = MP::from_value(&serde_json::to_value(&*ProtocolMkProof::from_json_hex(&part.proof).unwrap()).unwrap());
+                                let proof = ProtocolMkProof::from_json_hex(&part.proof).unwrap();
+                                roots.push(proof.compute_root().to_hex());
+                                let mp = MP::from_value(&serde_json::to_value(&*proof).unwrap());
                                 parts_txt.push(format!("([{}],{})", part.transactions_hashes.iter().map(|h| hex(h.as_bytes())).collect::<Vec<_>>().join(","), mp.line()));
                             }
+                            outs.push(format!("ok{}nc{}L{}", hutil::list(&cert_ids), hutil::list(&nc), rl.id(&roots[0])));
+                            let ver = msg.verify();
                             let out = match &ver {
                                 Ok(v) => { let mut pm = mithril_common::entities::ProtocolMessage::new(); v.fill_protocol_message(&mut pm); format!("ok {}", pm.get_message_part(&ProtocolMessagePartKey::CardanoTransactionsMerkleRoot).unwrap()) }
                                 Err(e) => { let t = format!("{:?}", e); if t.starts_with("InvalidSetProof") { "err invalid".into() } else if t.starts_with("NonMatchingMerkleRoot") { "err nonmatching".into() } else { "err other".to_string() } }
@@ -689,10 +862,7 @@ fn run_history(rt: &Arc<tokio::runtime::Runtime>, template: &Path, scratch: &Pat
                             proof_cases.push(("proof-legacy".into(), format!("c11.legacy parts=[{}]", parts_txt.join(",")), out));
                             match &ver {
                                 Err(e) => {
-                                    // duplicated hashes never reach the service through the HTTP route (sorted and de-duplicated there)
-                                    let dup = { let mut s = req.clone(); s.sort(); s.windows(2).any(|w| w[0] == w[1]) };
-                                    let class = if dup { "legacy-duplicate-request" } else { "proof-rejected" };
-                                    fails.push((oi, Failure { class, what: format!("{}: the produced proof is rejected by the client-side verifier: {}", what_req, format!("{:?}", e).chars().take(160).collect::<String>()) }));
+                                    fails.push((oi, Failure { class: "proof-rejected", what: format!("{}: the produced proof is rejected by the client-side verifier: {}", what_req, format!("{:?}", e).chars().take(160).collect::<String>()) }));
                                 }
                                 Ok(v) => {
                                     for h in v.certified_transactions() {
@@ -774,8 +944,9 @@ fn main() {
 
     // replay (`--only`): every history is run again, the sink keeps the wanted case only
     let mut hidx = 0usize;
+    let front = front::Front::new(&rt, &scratch);
     for (tag, ops) in &fixed {
-        run_history(&rt, &template, &scratch, hidx, ops, 7, 1, 1, &mut sink, tag, only);
+        run_history(&rt, &template, &scratch, hidx, ops, 7, 1, 1, &mut sink, tag, only, None);
         hidx += 1;
     }
     for h in 0..nhist {
@@ -784,7 +955,16 @@ fn main() {
         let batch = hr.range(1, 30) as usize;
         let pool2 = hr.range(1, 3) as usize;
         let pooll = hr.range(1, 3) as usize;
-        run_history(&rt, &template, &scratch, hidx, &ops, batch, pool2, pooll, &mut sink, if h % 2 == 0 { "history-even" } else { "history-odd" }, only);
+        if h % 4 == 1 {
+            // through the REAL HTTP route: the service receives the hashes sorted and de-duplicated, never an empty list
+            let ops: Vec<Op> = ops.into_iter().map(|op| {
+                let clean = |r: Vec<u64>| -> Vec<u64> { let mut r = r; r.sort(); r.dedup(); if r.is_empty() { r.push(2 * (h as u64 + 1)); } r };
+                match op { Op::Ptx(u, r) => Op::Ptx(u, clean(r)), Op::Pblk(u, r) => Op::Pblk(u, clean(r)), Op::Pl(u, r) => Op::Pl(u, clean(r)), o => o }
+            }).collect();
+            run_history(&rt, &template, &scratch, hidx, &ops, batch, pool2, pooll, &mut sink, "http-history", only, Some(&front));
+        } else {
+            run_history(&rt, &template, &scratch, hidx, &ops, batch, pool2, pooll, &mut sink, if h % 2 == 0 { "history-even" } else { "history-odd" }, only, None);
+        }
         hidx += 1;
     }
     // ---- witness of the known finding, replayed on the real services every run -------------------------------------------
@@ -799,11 +979,11 @@ fn main() {
         let inside = rt.block_on(async { p.compute_transactions_proofs(BlockNumber(35), &[h64(100_001 + 2 * 33)]).await });
         let p = node.prover2.clone();
         let below = rt.block_on(async { p.compute_transactions_proofs(BlockNumber(35), &[h64(100_001 + 2 * 20)]).await });
-        let refused = inside.as_ref().err().map(|e| err_class(e) == "root").unwrap_or(false);
+        let refused = inside.as_ref().err().map(|e| err_class(&format!("{:?}", e)) == "root").unwrap_or(false);
         let below_ok = below.as_ref().ok().and_then(|o| o.as_ref().map(|p| Some(p.merkle_root()) == signed)).unwrap_or(false);
         sink.witness("C11-beacon-inside-stored-range", refused && below_ok, &format!(
             "blocks 0..49 imported, beacon 35 signed (root of the whole range [30,45[ is stored and signed), cache computed for 35: proof of the transaction of block 33 -> {}; of block 20 -> {}",
-            match &inside { Ok(Some(_)) => "proof".to_string(), Ok(None) => "none".into(), Err(e) => format!("refused ({})", err_class(e)) },
+            match &inside { Ok(Some(_)) => "proof".to_string(), Ok(None) => "none".into(), Err(e) => format!("refused ({})", err_class(&format!("{:?}", e))) },
             if below_ok { "proof under the signed root" } else { "no proof under the signed root" }));
         node.close();
     }
